@@ -239,6 +239,62 @@ def trigger_time_sources(tree):
     return out
 
 
+RELEVANT_CALLS = ("_trigger_event_before_order", "_add_order", "submitted_order", "_trigger_event_after_order",
+                  "_trigger_event_before_cancel", "_cancel_order", "canceled_order", "_trigger_event_after_cancel",
+                  "_execution", "_update_agents_for_execution", "executed_order", "_trigger_event_after_execution")
+
+
+def request_paths(fn):
+    """symbolic walk of the two `for order in …` loop bodies of `_handle_orders` (normal and
+    high-frequency branch) for the four scenarios (order / cancel) x (execution on / off): the calls
+    and agent look-ups in evaluation order, one iteration of every inner loop"""
+    loops = [n for n in ast.walk(fn) if isinstance(n, ast.For) and isinstance(n.target, ast.Name) and n.target.id == "order"
+             and not any(isinstance(p, ast.GeneratorExp) for p in [n])]
+    loops.sort(key=lambda n: n.lineno)
+    out = []
+
+    def expr_tokens(e, toks):
+        # evaluation order: arguments / subscripts before the call itself
+        for child in ast.iter_child_nodes(e):
+            expr_tokens(child, toks)
+        if isinstance(e, ast.Subscript) and isinstance(e.value, ast.Attribute) and e.value.attr == "id2agent":
+            src = ast.unparse(e.slice)
+            toks.append("agent:" + src.split(".", 1)[1] if "." in src else "agent:" + src)
+        elif isinstance(e, ast.Call) and isinstance(e.func, ast.Attribute) and e.func.attr in RELEVANT_CALLS:
+            toks.append(e.func.attr)
+
+    def walk(stmts, is_order, execution, toks):
+        for st in stmts:
+            if isinstance(st, ast.If):
+                test = ast.unparse(st.test)
+                if test == "isinstance(order, Order)":
+                    walk(st.body if is_order else st.orelse, is_order, execution, toks)
+                elif test == "isinstance(order, Cancel)":
+                    walk(st.body if not is_order else st.orelse, is_order, execution, toks)
+                elif test == "session.with_order_execution":
+                    walk(st.body if execution else st.orelse, is_order, execution, toks)
+                elif test == "not session.with_order_placement":
+                    walk(st.orelse, is_order, execution, toks)
+                else:
+                    toks.append("cond:" + test)
+                    walk(st.body, is_order, execution, toks)
+            elif isinstance(st, ast.For):
+                toks.append("for[")
+                walk(st.body, is_order, execution, toks)
+                toks.append("]")
+            elif isinstance(st, ast.Raise):
+                toks.append("raise")
+            else:
+                expr_tokens(st, toks)
+    for name, loop in zip(("normal", "hft"), loops[:2]):
+        for is_order in (True, False):
+            for execution in (True, False):
+                toks = []
+                walk(loop.body, is_order, execution, toks)
+                out.append((name, not is_order, execution, toks))
+    return out
+
+
 def regenerate_fragments(status):
     trees = {}
 
@@ -279,7 +335,16 @@ def regenerate_fragments(status):
     text += "/-- `Session.setup`: settings key ↦ attribute it is assigned to -/\n"
     text += "def sessionKeys : List (String × String) :=\n  [" + ",\n   ".join("(%s, %s)" % (lean_str(a), lean_str(b)) for a, b in keys) + "]\n\n"
     text += "/-- `Simulator._trigger_event_*`: the expression that gives the occurrence's time -/\n"
-    text += "def triggerTimes : List (String × String) :=\n  [" + ",\n   ".join("(%s, %s)" % (lean_str(a), lean_str(b)) for a, b in times) + "]\n\nend PamsGen\n"
+    text += "def triggerTimes : List (String × String) :=\n  [" + ",\n   ".join("(%s, %s)" % (lean_str(a), lean_str(b)) for a, b in times) + "]\n\n"
+    try:
+        paths = request_paths(find_func(tree_of("pams/runners/sequential.py"), "SequentialRunner", "_handle_orders"))
+    except Exception:
+        paths = []
+    text += "/-- `SequentialRunner._handle_orders`: (branch, isCancel, execution on, calls and agent look-ups in evaluation order) -/\n"
+    text += "def requestPaths : List (String × Bool × Bool × List String) :=\n  [" + ",\n   ".join(
+        "(%s, %s, %s, [%s])" % (lean_str(n), "true" if c else "false", "true" if e else "false", ", ".join(lean_str(t) for t in toks))
+        for n, c, e, toks in paths) + "]\n\nend PamsGen\n"
+    status["request_paths"] = len(paths)
     changed = write_if_changed(os.path.join(LEAN_DIR, "PamsGen", "Fragments.lean"), text)
     status["Fragments"] = {"functions": len(frag), "rewritten": changed}
 
